@@ -4,6 +4,7 @@
 package c08_hist
 
 import (
+	"context"
 	"crypto/sha256"
 	"encoding/base64"
 	"fmt"
@@ -98,6 +99,7 @@ type Tok struct {
 
 type jwtDesc struct {
 	iss            string // the iss claim
+	extra          bool   // signed with the extra (retired) key
 	sigOK, expired bool
 	jti, sub, azp  string
 }
@@ -124,6 +126,7 @@ type World struct {
 	// what the storage holds as secret of clients registered without one (public, private_key_jwt)
 	Secretless string
 	Skew       time.Duration // ClockSkew of every client
+	KOpts      []KOpt        // provider options about key sets, in order
 	UAUser     string        // worlds whose storage implements CanTerminateSessionFromRequest: the user of the user agent's session
 }
 
@@ -307,19 +310,52 @@ func NewWorld(r drv.Rand) *World {
 	for _, c := range st.Clients {
 		c.Skew = w.Skew
 	}
+	// provider OPTIONS about key sets, in the order they are passed: custom key sets that trust
+	// what the storage publishes and, possibly, the extra (retired) key
+	switch r.IntN(7) {
+	case 0, 1:
+	case 2:
+		w.KOpts = []KOpt{{AT: true, Extra: r.Chance(3, 4)}}
+	case 3, 4:
+		w.KOpts = []KOpt{{AT: false, Extra: r.Chance(5, 6)}}
+	case 5:
+		w.KOpts = []KOpt{{AT: true, Extra: r.Bool()}, {AT: false, Extra: r.Bool()}}
+	default:
+		w.KOpts = []KOpt{{AT: false, Extra: r.Bool()}, {AT: true, Extra: r.Bool()}}
+		if r.Chance(1, 3) { // the same option twice: the last one counts
+			w.KOpts = append(w.KOpts, KOpt{AT: r.Bool(), Extra: r.Bool()})
+		}
+	}
+	var popts []op.Option
+	okind := "none"
+	for i, o := range w.KOpts {
+		ks := &extraKeySet{st: storage, trustExtra: o.Extra}
+		if i == 0 {
+			okind = ""
+		}
+		if o.AT {
+			popts = append(popts, op.WithAccessTokenKeySet(ks))
+			okind += "A"
+		} else {
+			popts = append(popts, op.WithIDTokenHintKeySet(ks))
+			okind += "H"
+		}
+	}
+	w.tag("keyset-options=" + okind)
+	fopts := opfix.Options{ProviderOpts: popts}
 	var err error
 	if r.Bool() {
 		w.Dynamic = true
 		w.Hosts = []string{"a.op.example.com", "b.op.example.com", "c.op.example.com"}
 		w.multi = r.Chance(2, 3)
-		w.F, err = opfix.NewWithStorage(st, storage, opfix.Options{}, op.IssuerFromHost(""))
+		w.F, err = opfix.NewWithStorage(st, storage, fopts, op.IssuerFromHost(""))
 		w.tag("issuer=dynamic")
 		if w.multi {
 			w.tag("hosts=several")
 		}
 	} else {
 		w.Hosts = []string{"op.example.com"}
-		w.F, err = opfix.NewWithStorage(st, storage, opfix.Options{}, op.StaticIssuer(opfix.Issuer))
+		w.F, err = opfix.NewWithStorage(st, storage, fopts, op.StaticIssuer(opfix.Issuer))
 		w.tag("issuer=static")
 	}
 	if err != nil {
@@ -380,6 +416,9 @@ func (w *World) TokTerm(t *Tok) string {
 	}
 	if t.jwt != nil {
 		d := t.jwt
+		if d.extra {
+			return emit.Ctor("PJwtX", emit.Nat(w.issIndex(d.iss)), emit.Bool(d.expired), SidTerm(d.jti), emit.Str(d.sub), emit.Str(d.azp))
+		}
 		return emit.Ctor("PJwt", emit.Nat(w.issIndex(d.iss)), emit.Bool(d.sigOK), emit.Bool(d.expired), SidTerm(d.jti), emit.Str(d.sub), emit.Str(d.azp))
 	}
 	if class, sub, ok := refstore.ParseExtToken(t.S); ok {
@@ -394,6 +433,28 @@ type Cred struct {
 	FormID  string // both / assert: a client_id sent in the form along with the credential
 	// post with Sec == "": send client_secret= (present, empty) instead of leaving it out
 	EmptyParam bool
+}
+
+// KOpt: one provider option about key sets - WithAccessTokenKeySet (AT) or WithIDTokenHintKeySet -
+// with a custom key set that trusts the extra key or not.
+type KOpt struct{ AT, Extra bool }
+
+// the extra key: a retired signing key the storage no longer publishes
+const ExtraKID = "retired-k"
+
+var extraKey = opfix.ECKey("retired-signing-key")
+
+// extraKeySet: a custom oidc.KeySet - what the storage publishes and, if trustExtra, the extra key.
+type extraKeySet struct {
+	st         op.Storage
+	trustExtra bool
+}
+
+func (k *extraKeySet) VerifySignature(ctx context.Context, jws *jose.JSONWebSignature) ([]byte, error) {
+	if kid, _ := oidc.GetKeyIDAndAlg(jws); k.trustExtra && kid == ExtraKID {
+		return jws.Verify(&extraKey.PublicKey)
+	}
+	return (&op.OpenIDKeySet{Storage: k.st}).VerifySignature(ctx, jws)
 }
 
 // pkjwtKey is the key opfix.NewStd registers for client "pkjwt" (kid k1).
@@ -934,6 +995,23 @@ func (w *World) CraftJWT(variant, jti, sub, client string, idToken bool) *Tok {
 	case "expired":
 		exp = time.Now().Add(-time.Hour)
 		d.expired = true
+	case "expired+wrong-kid": // expired AND signed under a kid the provider does not publish
+		key = &refstore.SigningKey{KID: "retired-key-2023", Alg: jose.ES256, Priv: opfix.ECKey("not-the-op-key")}
+		d.sigOK = false
+		exp = time.Now().Add(-time.Hour)
+		d.expired = true
+	case "expired+wrong-key":
+		key = &refstore.SigningKey{KID: key.KID, Alg: jose.ES256, Priv: opfix.ECKey("not-the-op-key")}
+		d.sigOK = false
+		exp = time.Now().Add(-time.Hour)
+		d.expired = true
+	case "extra-key", "extra-key-expired": // the retired key only custom key sets may trust
+		key = &refstore.SigningKey{KID: ExtraKID, Alg: jose.ES256, Priv: extraKey}
+		d.extra, d.sigOK = true, false
+		if variant == "extra-key-expired" {
+			exp = time.Now().Add(-time.Hour)
+			d.expired = true
+		}
 	}
 	d.iss = iss
 	signer, err := op.SignerFromKey(key)
@@ -989,13 +1067,21 @@ func (w *World) PolicyTerm() string {
 	if w.Policy.Subject != "" {
 		subj = emit.Some(emit.Str(w.Policy.Subject))
 	}
+	var kopts []string
+	for _, o := range w.KOpts {
+		if o.AT {
+			kopts = append(kopts, emit.Ctor("OptATKeys", emit.Bool(o.Extra)))
+		} else {
+			kopts = append(kopts, emit.Ctor("OptHintKeys", emit.Bool(o.Extra)))
+		}
+	}
 	sess := emit.None
 	if w.Policy.SessionFromRequest {
 		sess = emit.Some(emit.Str(w.UAUser))
 	}
 	act := map[string]string{"": "ActDefault", "none": "ActNone", "mapped": "ActMapped", "chain": "ActChain"}[w.Policy.Act]
 	return emit.Ctor("TEPolicy", emit.Bool(!w.Policy.NoDefaultType), force, subj, emit.Bool(w.Policy.EmptyScopes), emit.Bool(w.Policy.Verifier), sess, act, emit.Str(w.Policy.NoLogoutFor),
-		map[string]string{"": "LateNone", "plain": "LatePlain", "oauth": "LateOAuth"}[w.Policy.Late])
+		map[string]string{"": "LateNone", "plain": "LatePlain", "oauth": "LateOAuth"}[w.Policy.Late], emit.List(kopts))
 }
 
 func (w *World) Observed() string { return emit.List(w.Outs) }
